@@ -17,6 +17,7 @@ import (
 
 	"golang.org/x/time/rate"
 
+	"github.com/fatedier/frp/pkg/config/types"
 	"github.com/fatedier/frp/pkg/util/limit"
 	"verifharness/hx"
 )
@@ -193,73 +194,113 @@ func runLimit(cfg *hx.RunCfg) error {
 		}
 		add("bucket", fmt.Sprintf("CBucket %d %d %s %s 2000", r, b, hx.List(reqs), hx.List(acts)), k > 1)
 	}
+	// the limit as configured: string -> BandwidthQuantity
+	bwStrings := []string{"", " ", "1MB", "0.5MB", "0.9MB", "1.5KB", "0.5KB", "0.001MB", "0.0001KB", "512KB", " 256KB ", "2.MB", ".5MB", "10KB", "1kb", "MB", "1GB", "12", "0.125MB", "1.0MB", "100.25KB", "0KB", "0.0MB", "3.999KB"}
+	for i := 0; i < len(bwStrings)+cfg.N/10; i++ {
+		var str string
+		if i < len(bwStrings) {
+			str = bwStrings[i]
+		} else {
+			ip, fr := g.Intn(3000), ""
+			if g.Chance(0.5) {
+				ip = 0
+			}
+			if g.Chance(0.8) {
+				fr = "." + fmt.Sprint(g.Intn(100000))[0:1+g.Intn(3)%len(fmt.Sprint(g.Intn(100000)+1))]
+			}
+			str = fmt.Sprint(ip) + fr + []string{"MB", "KB"}[g.Intn(2)]
+		}
+		q, err := types.NewBandwidthQuantity(str)
+		add("bandwidth", fmt.Sprintf("CBw %s %s %d", hx.HxS(str), hx.Bool(err == nil), q.Bytes()), str != "")
+	}
+	// legacy ini vs toml through the real loader
+	iniFails, iniDone := legacyIniCompare(g, 40)
+	fails = append(fails, iniFails...)
+	cfg.St["legacy_ini_configs_compared"] = iniDone
+	if iniDone == 0 {
+		fails = append(fails, map[string]string{"key": "legacy-ini:none", "what": "no legacy ini / toml pair could be loaded and compared", "case": ""})
+	}
 	// real clock
 	nrate := 3
 	if cfg.Tier == "thorough" {
 		nrate = 12
 	}
 	for i := 0; i < nrate; i++ {
-		r := int64(1<<20) * int64(1+g.Intn(3))
-		b := int64(8192 * (1 + g.Intn(8)))
-		total := int(b) + int(r)/8 + g.Intn(int(r)/16)
-		lim := rate.NewLimiter(rate.Limit(float64(r)), int(b))
-		sink := &recSink{}
-		w := limit.NewWriter(sink, lim)
-		type ev struct {
-			t time.Time
-			n int
-		}
-		var evs []ev
-		var mu sync.Mutex
-		var wg sync.WaitGroup
-		start := time.Now()
-		wg.Add(2)
-		go func() { // writer direction
-			defer wg.Done()
-			p := g.Bytes(total / 2)
-			for len(p) > 0 {
-				c := 20000
-				if c > len(p) {
-					c = len(p)
-				}
-				_, _ = w.Write(p[:c])
-				p = p[c:]
+		for attempt := 0; ; attempt++ {
+			r := int64(1<<20) * int64(1+g.Intn(3))
+			b := int64(8192 * (1 + g.Intn(8)))
+			total := int(b) + int(r)/8 + g.Intn(int(r)/16)
+			lim := rate.NewLimiter(rate.Limit(float64(r)), int(b))
+			sink := &recSink{}
+			w := limit.NewWriter(sink, lim)
+			type ev struct {
+				t time.Time
+				n int
 			}
-		}()
-		go func() { // reader direction shares the bucket
-			defer wg.Done()
-			src := &scriptSrc{data: make([]byte, total/2)}
-			rd := limit.NewReader(src, lim)
-			buf := make([]byte, 16384)
-			for {
-				src.offers = append(src.offers, 16384)
-				n, err := rd.Read(buf)
-				if err != nil {
-					return
+			var evs []ev
+			var mu sync.Mutex
+			var wg sync.WaitGroup
+			start := time.Now()
+			wg.Add(2)
+			go func() { // writer direction
+				defer wg.Done()
+				p := g.Bytes(total / 2)
+				for len(p) > 0 {
+					c := 20000
+					if c > len(p) {
+						c = len(p)
+					}
+					_, _ = w.Write(p[:c])
+					p = p[c:]
 				}
-				mu.Lock()
-				evs = append(evs, ev{time.Now(), n})
-				mu.Unlock()
+			}()
+			go func() { // reader direction shares the bucket
+				defer wg.Done()
+				src := &scriptSrc{data: make([]byte, total/2)}
+				rd := limit.NewReader(src, lim)
+				buf := make([]byte, 16384)
+				for {
+					src.offers = append(src.offers, 16384)
+					n, err := rd.Read(buf)
+					if err != nil {
+						return
+					}
+					mu.Lock()
+					evs = append(evs, ev{time.Now(), n})
+					mu.Unlock()
+				}
+			}()
+			wg.Wait()
+			sink.mu.Lock()
+			for j, c := range sink.chunks {
+				evs = append(evs, ev{sink.times[j], len(c)})
 			}
-		}()
-		wg.Wait()
-		sink.mu.Lock()
-		for j, c := range sink.chunks {
-			evs = append(evs, ev{sink.times[j], len(c)})
+			sink.mu.Unlock()
+			sort.Slice(evs, func(a, b int) bool { return evs[a].t.Before(evs[b].t) })
+			var items []string
+			for _, e := range evs {
+				items = append(items, pairZ(int64(e.t.Sub(start)), int64(e.n)))
+			}
+			slack := r / 100 // 10 ms worth of bytes: scheduling delay between the act time and our timestamp
+			// timestamps are taken after the act time; on a loaded machine a descheduled goroutine shifts them.  A trace
+			// that misses the bound is measured again (runtime residue: reported only if it reproduces three times)
+			pts := make([][2]int64, len(evs))
+			for k, e := range evs {
+				pts[k] = [2]int64{int64(e.t.Sub(start)), int64(e.n)}
+			}
+			if attempt < 2 && !rateBoundHolds(r, b, slack, pts) {
+				dist["rate trace re-measured"]++
+				continue
+			}
+			add("rate", fmt.Sprintf("CRate %d %d %s %d", r, b, hx.List(items), slack), true)
+			break
 		}
-		sink.mu.Unlock()
-		sort.Slice(evs, func(a, b int) bool { return evs[a].t.Before(evs[b].t) })
-		var items []string
-		for _, e := range evs {
-			items = append(items, pairZ(int64(e.t.Sub(start)), int64(e.n)))
-		}
-		slack := r / 100 // 10 ms worth of bytes: scheduling delay between the act time and our timestamp
-		add("rate", fmt.Sprintf("CRate %d %d %s %d", r, b, hx.List(items), slack), true)
 	}
 	cf := &hx.CaseFile{Imports: imports, Typ: "case", Cases: cases,
 		Tail: "Definition M := Eval vm_compute in mismatches check_case cases.\nPrint M.\n" +
 			"Definition NSPLIT := Eval vm_compute in count_if is_split cases.\nPrint NSPLIT.\n" +
-			"Definition NWAITING := Eval vm_compute in count_if is_waiting cases.\nPrint NWAITING.\n"}
+			"Definition NWAITING := Eval vm_compute in count_if is_waiting cases.\nPrint NWAITING.\n" +
+			"Definition NFRACTION := Eval vm_compute in count_if is_fraction cases.\nPrint NFRACTION.\n"}
 	if err := cf.Write(cfg.Out); err != nil {
 		return err
 	}
@@ -277,4 +318,20 @@ func runLimit(cfg *hx.RunCfg) error {
 	cfg.St["samples"] = samples
 	cfg.St["impl_failures"] = fails
 	return nil
+}
+
+// rateBoundHolds mirrors Corr.C01.bound_all: for every j <= i the bytes from event j to event i are at most
+// burst + slack + rate * (t_i - t_j) (+ the nanosecond truncation term).
+func rateBoundHolds(rate, burst, slack int64, evs [][2]int64) bool {
+	const G = 1000000000
+	for j := range evs {
+		acc := int64(0)
+		for i := j; i < len(evs); i++ {
+			acc += evs[i][1]
+			if G*acc > G*(burst+slack)+rate*(evs[i][0]-evs[j][0])+rate {
+				return false
+			}
+		}
+	}
+	return true
 }
